@@ -51,7 +51,9 @@ func (rg *rootGeneratorSimple) generate() ([]*Node, error) {
 			return nil, errNilStack
 		}
 
-		stack.dfs(currentNode)
+		if !stack.dfs(currentNode) {
+			return nil, &inputFormatError{row: rg.scanner.Text()}
+		}
 	}
 
 	return roots, rg.scanner.Err()
@@ -94,7 +96,10 @@ func (rg *rootGeneratorSimple) generateIter() func(yield func(*Node, error) bool
 				return
 			}
 
-			stack.dfs(currentNode)
+			if !stack.dfs(currentNode) {
+				yield(nil, &inputFormatError{row: rg.scanner.Text()})
+				return
+			}
 		}
 
 		// 最後のブロックのrootを返却 (empty or blank-only input has no root: nothing to yield)
@@ -175,7 +180,10 @@ func (rg *rootGeneratorPipeline) worker(ctx context.Context, wg *sync.WaitGroup,
 					return
 				}
 
-				nodes.dfs(currentNode)
+				if !nodes.dfs(currentNode) {
+					sendErr(ctx, errc, &inputFormatError{row: sc.Text()})
+					return
+				}
 			}
 			if err := sc.Err(); err != nil {
 				sendErr(ctx, errc, err)
